@@ -445,6 +445,8 @@ def delKey {β} (k : String) (l : List (String × β)) : List (String × β) := 
 def insertDeriv (p : ObjDump) (key : String) (d : ObjDump) (override : Bool) : R ObjDump :=
   if !(classInfo p.body.cls).derivsOk then none else
   if p.body.numer != d.body.numer then none else
+  -- `_require_compatible_deriv`: the derivative's shape must broadcast INTO the parent's shape
+  if bcast d.body.shape p.body.shape != some p.body.shape then none else
   if p.body.readonly && hasKey key p.derivs && !override then none else
   -- deriv.wod.as_float()
   match asFloat (cloneBare d) with
@@ -621,12 +623,16 @@ def collapseOf (k : String) : List (String × Collapse) → Collapse
 /-- a derivative comes back with the parent's mask when that is an array (pickler.py:1052-1057), else with its own -/
 def rebuildDeriv (parent : Body) (dc : List (String × Collapse)) (d : String × ObjDump) : String × ObjDump :=
   match parent.mask with
-  | .array s k _ =>
-    (d.1, bare { rebuildBody d.2.body .keep with mask := .array s k (!d.2.body.readonly) })
+  | .array s k w =>
+    (d.1, bare { rebuildBody d.2.body .keep with mask := .array s k w })
   | _ => (d.1, bare (rebuildBody d.2.body (collapseOf d.1 dc)))
 
 def setstate (o : ObjDump) (c : Collapse) (dc : List (String × Collapse)) : R ObjDump :=
-  let body := rebuildBody o.body c
+  let body0 := rebuildBody o.body c
+  -- a derivative shares the parent's mask array; freezing a read-only derivative freezes that array
+  let body := match body0.mask with
+    | .array s k w => { body0 with mask := .array s k (w && !o.derivs.any (fun d => d.2.body.readonly)) }
+    | _ => body0
   match insertDerivs (bare body) (o.derivs.map (rebuildDeriv body dc)) true with
   | (r, true) => some r
   | (_, false) => none
